@@ -969,3 +969,13 @@ Example tight_shift_nonvacuous :
   tight_at 0 [91; 91; 93; 93] = true /\ nest [91; 91; 93; 93] = 2 /\ tight_at 9998 [91; 91; 93; 93] = true /\
   tight_at 9999 [91; 91; 93; 93] = false.
 Proof. repeat split; vm_compute; reflexivity. Qed.
+
+(* compaction of a value that is valid d containers down succeeds and stays valid there *)
+Theorem compact_tight_at d p : tight_at d p = true -> exists q, compact p = Some q /\ tight_at d q = true.
+Proof.
+  intros H. destruct (tight_PV _ _ H) as [c Hc].
+  pose proof (parse_doc_PV _ _ (PV_depth _ 0 _ _ _ Hc (N.le_0_l d))) as Hp.
+  pose proof (pval_wf _ _ _ _ _ (PV_value_at _ _ _ _ Hc)) as Hwf.
+  unfold compact. rewrite Hp. eexists. split; [reflexivity|].
+  unfold ccompact_html. rewrite cprint_cmap. exact (PV_tight _ _ _ (ctext_PV d _ [] (cwf_cpt _ _ Hwf) I)).
+Qed.
